@@ -54,6 +54,13 @@ def mutants(data, rng, n, others=()):
             b[i] = 0
             add(b)
             add(bytes(b[:i + 1]) + b'\x00' * 4)
+    # whole fields set to zero (identifiers, cookies, session ids, timestamps: a zero value is a value, not an absence)
+    for w in (8, 4):
+        for i in range(0, min(L - w + 1, 48)):
+            if any(data[i:i + w]):
+                b = bytearray(data)
+                b[i:i + w] = bytes(w)
+                add(b)
     # letter case, one letter at a time (text protocols: where does case matter?)
     for i in spots:
         if 0x41 <= data[i] <= 0x5a or 0x61 <= data[i] <= 0x7a:
